@@ -64,7 +64,7 @@ def table():
     for a, b in ((1.5, 2.25), (1.0, 1.5), (0.5, 0.75), (2.0, 0.75), (-1.0, 1.5), (-2.0, 0.75), (-0.5, 1.25)):
         add('hyperu_%g_%g' % (a, b), _hy(a, b), 'gamma', None,
             glob=(lambda a, b: lambda x: sp.hyperu(a, b, x))(a, b), meth=(lambda a, b: lambda x: UTPM.hyperu(a, b, x))(a, b))
-    for r in (0, 1, 2, 3, 5, 7):
+    for r in (0, 1, 2, 3, 4, 5, 6, 7, 9, 12):
         add('pow_int_%d' % r, (lambda r: lambda x: x ** r)(r), 'R', 'R', op=(lambda r: lambda x: x ** r)(r),
             npint=(lambda r: lambda x: x ** np.int64(r))(r))
     for r in (1, 2, 3, 4):          # polynomials are smooth at 0: base points with exact zeros, python and numpy integer exponents
@@ -130,9 +130,26 @@ EXTREME = {'exp': [600., -600.], 'expm1': [600., -40., -700.], 'log': [1e200], '
 # (no tiny arguments for functions singular at 0: the reference differentiates numerically with steps larger than the distance to the singularity)
 
 
+def _pow_coeffs(r):
+    return lambda x0, n: [mp.binomial(r, k) * mp.mpf(x0) ** (mp.mpf(r) - k) for k in range(n + 1)]
+
+
+def _log_coeffs(x0, n):
+    x0 = mp.mpf(x0)
+    return [mp.log(x0)] + [(-1) ** (k - 1) / (k * x0 ** k) for k in range(1, n + 1)]
+
+
+# closed-form Taylor coefficients f^(k)(x0)/k! for functions singular at 0, used at tiny arguments where numerical differentiation
+# of the mpmath function (steps larger than the distance to the singularity) is not a valid reference
+CLOSED = {'log': _log_coeffs, 'sqrt': _pow_coeffs(mp.mpf(1) / 2), 'reciprocal': _pow_coeffs(-1), 'pow_real_2.5': _pow_coeffs(mp.mpf(5) / 2),
+          'pow_real_0.5': _pow_coeffs(mp.mpf(1) / 2), 'pow_real_-1.5': _pow_coeffs(mp.mpf(-3) / 2), 'pow_negint_3': _pow_coeffs(-3), 'pow_negint_1': _pow_coeffs(-1)}
+TINY = {'log': [1e-30, 1e-200], 'sqrt': [1e-30, 1e-200], 'reciprocal': [1e-30], 'pow_real_2.5': [1e-30], 'pow_real_0.5': [1e-30], 'pow_real_-1.5': [1e-30],
+        'pow_negint_3': [1e-20], 'pow_negint_1': [1e-30, -1e-30]}
+
+
 def extreme_cases(tier, seed):
     out = []
-    for name, pts in EXTREME.items():
+    for name, pts in list(EXTREME.items()) + list(TINY.items()):
         for x0 in pts:
             for D in (1, 2, 3):
                 s = case_seed('C01', seed, 'extreme', name, x0, D)
@@ -163,7 +180,12 @@ def _extreme(ctx, p, rng):
         for el in range(2):
             xs = list(data[:, pp, el])
             try:
-                ref, maj = O.series(t['mp'], xs)
+                if name in CLOSED and abs(xs[0]) < 1e-3:
+                    fk = CLOSED[name](xs[0], D - 1)
+                    xm = [O.num(v) for v in xs]
+                    ref = O.compose(fk, xm); maj = O.compose([abs(v) for v in fk], [abs(v) for v in xm])
+                else:
+                    ref, maj = O.series(t['mp'], xs)
             except Exception:
                 ctx.skip('reference-unavailable:extreme:' + name); return
             for d in range(D):
@@ -319,6 +341,7 @@ def _piecewise(ctx, p, rng):
         elif name in ('minimum', 'maximum'):
             d2 = gen.series_data(rng, D, P, shape, 'nz', 'random', False)
             d2[0] = data[0] + rng.choice([-1.0, 1.0], size=data[0].shape) * rng.uniform(0.2, 1.0, size=data[0].shape)
+            d2 *= [1.0, 1e17, 1e-17, 1e300][(p['entry'] // 2) % 4]          # operands of very different magnitude: the selected one comes back exactly
             z = UTPM(d2.copy())
             y = getattr(algopy, name)(x, z)
             pick = (data[0] <= d2[0]) if name == 'minimum' else (data[0] >= d2[0])
